@@ -225,7 +225,8 @@ def summarize(exe, st, f, bb, callee, args, dest_ty):
                 return []
             return [(st, VRef("val", VSlice(vec, s_, e_)))]
         return None
-    if re.search(r"core::slice::<impl \[.*\]>::iter$", c) or re.search(r"<&Vec<.*> as IntoIterator>::into_iter$", c):
+    if re.search(r"core::slice::<impl \[.*\]>::iter$", c) or re.search(r"<&Vec<.*> as IntoIterator>::into_iter$", c) \
+            or re.search(r"^<&\[.*\] as IntoIterator>::into_iter$", c):
         v = _deref_all(exe, st, args[0])
         if isinstance(v, VSlice):
             return [(st, VIter("slice", v, 0))]
